@@ -87,6 +87,57 @@ def renumberAll (check : Bool) : Tree → Outcome
       ⟨(p, b') :: r.tree, ok && r.ok⟩
     | none => ⟨(p, b) :: r.tree, r.ok⟩
 
+/-! ### what format and renumber-tests print on standard output -/
+
+/-- `formatMessage`: in GitHub mode the text is wrapped as a warning command and carries its own line feed (Println adds one more) -/
+def fmtMsg (github : Bool) (name : Bytes) : Bytes :=
+  if github then b!"::warning ::" ++ name ++ b!" not properly formatted\n\n" else name ++ b!" not properly formatted\n"
+
+/-- one file of `regex format`: the message of check mode (a file that cannot be formatted is reported on stderr only) -/
+def formatOneOut (check github lint : Bool) (name b : Bytes) : Bytes :=
+  match formatFile b with
+  | .error _ => []
+  | .ok out => if check && !(out == b && !lint) then fmtMsg github name else []
+
+/-- the walk of `regex format --all`: (text, some file failed, ended by a parser panic) -/
+def formatWalkOut (check github : Bool) (lint : Bytes → Bool) : Tree → Bytes × Bool × Bool
+  | [] => ([], false, false)
+  | (p, b) :: rest =>
+    if isFormatTarget p then
+      if !parseable b then ([], true, true)
+      else
+        let (o, f, e) := formatWalkOut check github lint rest
+        (formatOneOut check github (lint p) (baseName p) b ++ o, f || !(formatOne check (lint p) b).2, e)
+    else formatWalkOut check github lint rest
+
+def formatAllNotice : Bytes := b!"::error::All assembly files need to be properly formatted. Please run `crs-toolchain regex format --all`\n"
+
+/-- standard output of `regex format --all [--check]` -/
+def formatAllOut (check github : Bool) (lint : Bytes → Bool) (t : Tree) : Bytes :=
+  match formatWalkOut check github lint t with
+  | (o, _, true) => o
+  | (o, f, false) => if f && github then o ++ formatAllNotice else o
+
+/-- the walk of `util renumber-tests --all`: in GitHub mode every file whose numbering changes is named — in check mode
+    and in write mode alike; (text, some file failed) -/
+def renumberWalkOut (check github : Bool) : Tree → Bytes × Bool
+  | [] => ([], false)
+  | (p, b) :: rest =>
+    let (o, f) := renumberWalkOut check github rest
+    match renumberId? p with
+    | some id =>
+      let changed := Crs.Renumber.processYaml id b != b
+      ((if github && changed then b!"::warning::Test file not properly numbered: " ++ baseName p ++ b!"\n" else []) ++ o,
+       f || (changed && check))
+    | none => (o, f)
+
+def renumberAllNotice : Bytes := b!"::error::All test files need to be properly numbered. Please run `crs-toolchain util renumber-tests --all`\n"
+
+/-- standard output of `util renumber-tests --all [--check]` -/
+def renumberAllOut (check github : Bool) (t : Tree) : Bytes :=
+  match renumberWalkOut check github t with
+  | (o, f) => if f && github then o ++ renumberAllNotice else o
+
 /-- `chore update-copyright -v V -y Y` (version and year already validated) -/
 def copyrightAll (v y : Bytes) : Tree → Outcome
   | [] => ⟨[], true⟩
@@ -296,7 +347,8 @@ structure Invocation where
   year : Bytes := []
   stdin : Bytes := []  -- what the process finds on standard input (read by `generate -` only)
 
-/-- result of an invocation: exit status 0?, the tree, and what `generate` printed -/
+/-- result of an invocation: exit status 0?, the tree, and what the command printed on standard output
+    (compare: filled in by `CompareView.runWithView`) -/
 structure RunResult where
   ok : Bool
   tree : Tree
@@ -315,15 +367,15 @@ def formatPathOf (arg : Bytes) : Bytes :=
   | .error _ => b!"regex-assembly/include/" ++ filename
 
 /-- `processFile` on one path of the tree -/
-def formatAt (check : Bool) (lint : Bytes → Bool) (t : Tree) (p : Bytes) : RunResult :=
+def formatAt (check github : Bool) (lint : Bytes → Bool) (t : Tree) (p : Bytes) : RunResult :=
   match lookup p t with
   | none => ⟨false, t, []⟩
   | some b =>
     if !parseable b then ⟨false, t, []⟩
-    else ⟨(formatOne check (lint p) b).2, setFile p (formatOne check (lint p) b).1 t, []⟩
+    else ⟨(formatOne check (lint p) b).2, setFile p (formatOne check (lint p) b).1 t, formatOneOut check github (lint p) (baseName p) b⟩
 
-def formatCmd (check : Bool) (lint : Bytes → Bool) (t : Tree) (arg : Bytes) : Option RunResult :=
-  if arg.contains '/' then none else some (formatAt check lint t (formatPathOf arg))
+def formatCmd (check github : Bool) (lint : Bytes → Bool) (t : Tree) (arg : Bytes) : Option RunResult :=
+  if arg.contains '/' then none else some (formatAt check github lint t (formatPathOf arg))
 
 /-- `path.Ext` removed: the name up to the last dot of its last path element (the whole name when that has no dot) -/
 def stripExt (name : Bytes) : Bytes :=
@@ -405,13 +457,13 @@ where
         | _ => some fail
     | .format =>
       if !oneTarget inv then some fail
-      else if inv.all then let r := formatAll inv.check lint t; some ⟨r.ok, r.tree, []⟩
+      else if inv.all then let r := formatAll inv.check lint t; some ⟨r.ok, r.tree, formatAllOut inv.check github lint t⟩
       else match inv.args with
-        | [arg] => if arg == b!"-" then some fail else formatCmd inv.check lint t arg
+        | [arg] => if arg == b!"-" then some fail else formatCmd inv.check github lint t arg
         | _ => some fail
     | .renumber =>
       if !oneTarget inv then some fail
-      else if inv.all then let r := renumberAll inv.check t; some ⟨r.ok, r.tree, []⟩
+      else if inv.all then let r := renumberAll inv.check t; some ⟨r.ok, r.tree, renumberAllOut inv.check github t⟩
       else match inv.args with
         | [arg] => if arg == b!"-" then some fail else renumberCmd inv.check t arg
         | _ => some fail
